@@ -135,7 +135,7 @@ def _inside_prefix(label_chunks, boundaries):
     return hits
 
 
-async def _tcp_decode(stream, feed_chunks, read_buffer_size):
+async def _tcp_decode(stream, feed_chunks, read_buffer_size, eof='late'):
     from rsocket.transports.tcp import TransportTCP
     from rsocket.frame import InvalidFrame
 
@@ -152,12 +152,21 @@ async def _tcp_decode(stream, feed_chunks, read_buffer_size):
     markers = 0
 
     async def feeder():
-        for c in feed_chunks:
+        # eof: 'late' = after the reader had a turn on the last chunk; 'with-last' = together with the last chunk;
+        # 'buffered' = everything, EOF included, is in the reader's buffer before the first read (a peer that writes
+        # and closes at once)
+        for i, c in enumerate(feed_chunks):
             reader.feed_data(c)
+            if eof == 'buffered' or (eof == 'with-last' and i == len(feed_chunks) - 1):
+                continue
             await asyncio.sleep(0)
         reader.feed_eof()
 
-    t = asyncio.ensure_future(feeder())
+    if eof == 'buffered':
+        await feeder()
+        t = asyncio.ensure_future(asyncio.sleep(0))
+    else:
+        t = asyncio.ensure_future(feeder())
     while True:
         gen = await tr.next_frame_generator()
         if gen is None:
@@ -282,12 +291,13 @@ def run_case(gen, idx, rng, tier):
                     cuts = sorted(rng.sample(range(1, len(stream)), m)) if m else []
                     feeds.append(_cut(stream, cuts))
                 feeds.append([stream[i:i + 1] for i in range(len(stream))] if len(stream) < 200 else [stream])
-                for chunks in feeds:
+                for fi, chunks in enumerate(feeds):
                     evals += 1
                     st['tcp_reader_runs'] += 1
-                    label = 'tcp rbs=%d feeds=%d' % (rbs, len(chunks))
+                    eof = ('late', 'with-last', 'buffered')[(fi + rbs) % 3]
+                    label = 'tcp rbs=%d feeds=%d eof=%s' % (rbs, len(chunks), eof)
                     try:
-                        frames, markers = vloop.run(_tcp_decode(stream, chunks, rbs))
+                        frames, markers = vloop.run(_tcp_decode(stream, chunks, rbs, eof))
                     except StepBound:
                         witnesses.append({'clause': 'decoder-exceeds-step-bound', 'detail': dict(ctx, partition=label)})
                         continue
